@@ -7,6 +7,8 @@ T: checks/c09_extract.py regenerates the wrapper table (decode skeletons + share
 C: every exported wrapper (stubs generated from the SIGNATURES only) is called under a fully scripted kernel
    (sc-shim) with every errno 1..=4095 and the success classes, and result + call count are compared with
    the model's `run` on the generated skeleton; `judge` below is the property's own statement.
+   A private or generic fn that issues the system call is a HELPER: it has no row and no stub; its body is inlined (parameters
+   substituted) into every exported caller, whose row carries the full decode whichever side of the split does it.
 Fallbacks (never a skipped obligation, only another source for the model's parameters):
    * a wrapper body the translator cannot understand is OPAQUE: no Lean row obligation, decided by `judge` alone on what
      the compiled wrapper does, exhaustively over errnos x all argument variants x success classes x result sequences;
@@ -328,7 +330,10 @@ def run(ctx):
     ctx.extra["skeleton_kinds"] = kinds
     ctx.extra["out_of_scope_no_result"] = sorted(w["name"] for w in meta["wrappers"] if w["cat"] == "noresult")
     ctx.extra["skipped_never_returning"] = sorted(w["name"] for w in meta["wrappers"] if w["cat"] == "noreturn")
-    ctx.extra["private_reached_through_delegates"] = sorted(w["name"] for w in meta["wrappers"] if not w["pub"] and w["cat"] != "noreturn")
+    ctx.extra["helpers_inlined_into_their_exported_callers"] = [
+        {"helper": h["name"], "file": h["file"], "generic": h["generic"],
+         "callers": sorted(w["name"] for w in meta["wrappers"] if h["name"].split("::")[-1] in w.get("inlined", []) and w["file"] == h["file"])}
+        for h in meta["helpers"]]
     ctx.extra["not_in_this_build"] = meta["skipped"]
     ctx.extra["payload_post_checks_on_kernel_memory"] = sorted(w["name"] for w in meta["wrappers"] if w["post_checks"])
     opaque = [w for w in meta["wrappers"] if w["opaque"]]
@@ -340,8 +345,9 @@ def run(ctx):
                                "compiled wrapper under the scripted kernel with every errno 1..=4095 for every argument variant, all success "
                                "classes and result sequences — exhaustive over the error range, sampled over success values and arguments"
                                % ", ".join(w["name"] for w in opaque))
-    unreachable = [w["name"] for w in meta["wrappers"] if not w["pub"] and w["cat"] != "noreturn"
-                   and not any(v["via"] == w["fn"] and v["file"] == w["file"] for v in meta["wrappers"])]
+    # a fn that issues the system call, cannot be called by the harness (private / generic) and is not called by any
+    # exported wrapper of its file: its decode can neither be inlined into a row nor exercised
+    unreachable = [h["name"] for h in meta["helpers"] if not h["reached"]]
     if unreachable:
         ctx.broken.append({"private_wrappers_without_exported_caller": unreachable})
 
